@@ -13,7 +13,8 @@ namespace ZoektModel.C31
 
 inductive Phase where
   | idle
-  | called (o : Op)     -- With / Global called, f not (yet) running
+  | called (o : Op) (just : Bool)   -- With / Global called, f not (yet) running; `just`: another operation for the same
+                                    -- repository has been in flight at some moment since the call
   | inside (o : Op)     -- f is running
   | finished (o : Op)   -- f has run
   deriving DecidableEq, Repr
@@ -30,11 +31,29 @@ def mayRun (ph : List Phase) (g : Nat) (o : Op) : Bool :=
     | .inside (.w m), .w n => m != n  -- two operations for the same repository never run at the same time
     | _, _ => true
 
+/-- a `With` for repository `n` is in flight (called and not yet returned) -/
+def inFlightW (n : Nat) : Phase → Bool
+  | .called (.w m) _ | .inside (.w m) | .finished (.w m) => m == n
+  | _ => false
+
+def anyOther (ph : List Phase) (g : Nat) (p : Phase → Bool) : Bool :=
+  (List.range ph.length).any fun j => j != g && p (phAt ph j)
+
+/-- a new `With n` is in flight: every `With n` that is waiting now has a reason to be skipped -/
+def markOne (n : Nat) : Phase → Phase
+  | .called (.w m) j => .called (.w m) (j || m == n)
+  | p => p
+
 def specStep (ph : List Phase) : Ev → Option (List Phase)
-  | .call g o => if g < ph.length && phAt ph g == .idle then some (ph.set g (.called o)) else none
+  | .call g o =>
+    if g < ph.length && phAt ph g == .idle then
+      match o with
+      | .w n => some ((ph.map (markOne n)).set g (.called (.w n) (anyOther ph g (inFlightW n))))
+      | .g => some (ph.set g (.called .g false))
+    else none
   | .begin g =>
     match phAt ph g with
-    | .called o => if mayRun ph g o then some (ph.set g (.inside o)) else none
+    | .called o _ => if mayRun ph g o then some (ph.set g (.inside o)) else none
     | _ => none
   | .fin g =>
     match phAt ph g with
@@ -42,8 +61,9 @@ def specStep (ph : List Phase) : Ev → Option (List Phase)
     | _ => none
   | .ret g ran =>
     match phAt ph g, ran with
-    | .finished _, true => some (ph.set g .idle)           -- reported as run ⇒ f ran to completion
-    | .called (.w _), false => some (ph.set g .idle)       -- reported as skipped ⇒ f did not run
+    | .finished _, true => some (ph.set g .idle)             -- reported as run ⇒ f ran to completion
+    | .called (.w _) true, false => some (ph.set g .idle)    -- reported as skipped ⇒ f did not run, and another operation
+                                                             -- for the same repository was in flight meanwhile
     | _, _ => none
 
 def specRun (ph : List Phase) : List Ev → Option (List Phase)
@@ -62,8 +82,9 @@ def firstBad (ph : List Phase) (k : Nat) : List Ev → Option (Nat × Ev)
     | some ph' => firstBad ph' (k + 1) r
     | none => some (k, e)
 
-/-- "skipped because its repository is busy": a `With` that returned false overlapped, between its call and
-    its return, a `With` for the same repository by another goroutine. Evaluated on whole traces. -/
+/-- "skipped because its repository is busy", a second time and independently of the `just` flags of `specStep`: a
+    `With` that returned false overlapped, between its call and its return, a `With` for the same repository by another
+    goroutine. Evaluated on whole traces (interval formulation). -/
 def callIdx (tr : List Ev) (g : Nat) (upto : Nat) : Option (Nat × Op) :=
   (List.range upto).foldl (fun acc i =>
     match tr.getD i (.begin 0) with
